@@ -90,6 +90,14 @@ structure RmsIn where
   powRank : Nat
   keepdims : Option Int
   noop : Option Int
+  xRank : Nat := 0
+  scaleRank : Nat := 0
+  epsRank : Nat := 0
+  /-- `true` (the default, what the driver uses) = the rule of /repo after commits 860eec7 (F6), 655e32d (F7),
+      a2dc518 (F10); `false` = the rule before that commit, kept only for the `…_prefix_refuted` theorems. -/
+  fix6 : Bool := true    -- no fusion when the scale's Cast changes its element type
+  fix7 : Bool := true    -- no fusion when rank(scale) > rank(x)
+  fix10 : Bool := true   -- no fusion when rank(epsilon) > rank(x)
 
 /-- `float_types` / `fp_float_types` as ONNX dtype numbers (FLOAT=1, FLOAT16=10, DOUBLE=11, BFLOAT16=16). -/
 def floatTypes : List Nat := [1, 10, 16, 11]
@@ -124,6 +132,9 @@ def rms (i : RmsIn) : String :=
   let stash := cd.getD xdtB
   if !(epsOk && floatTypes.contains xdtB && floatTypes.contains sdtB && fpFloatTypes.contains stash) then
     "count=0"
+  else if i.fix10 && i.epsRank > i.xRank then "count=0"
+  else if i.fix7 && i.scaleRank > i.xRank then "count=0"
+  else if i.fix6 && i.scaleCast && sPre && i.sdt != i.tdt then "count=0"
   else
     let xn := if i.castIn && !xPre then "@Cast" else "x"
     let sn := if i.scaleCast && !sPre then "@Cast" else "scale"
@@ -500,6 +511,10 @@ structure MhaIn where
   keyT : Bool
   qPermOk : Bool
   rotary : Bool := false        -- com.microsoft.RotaryEmbedding on the transposed query and key
+  rotIl : Int := 0              -- their `interleaved` attribute (the harness gives both nodes the same value)
+  /-- `true` (default, what the driver uses) = /repo after commit 9411688: `interleaved` is forwarded to the
+      re-created nodes.  `false` = the rule before that commit (finding C19-F14), kept for `…_prefix_refuted`. -/
+  fix14 : Bool := true
   scale : Option Float          -- the SDPA node's `scale` attribute
   query : Option Shape
   key : Option Shape
@@ -549,10 +564,11 @@ def mha (i : MhaIn) : String :=
       match maskR, (b6.lookup "H") with
       | some m, some (.int h) =>
         let sc := match i.scale with | some s => s!";scale={showF s}" | none => ""
-        -- rotary rules: the rewrite re-emits RotaryEmbedding on the 3-D inputs WITHOUT forwarding the matched
-        -- nodes' attributes ("TODO: forward other attributes"), so `interleaved` is lost (finding C19-F14)
+        -- rotary rules: the rewrite re-emits RotaryEmbedding on the 3-D inputs; since commit 9411688 with the
+        -- matched nodes' `interleaved` (before: without any attribute, finding C19-F14)
+        let ra := if i.fix14 then s!"interleaved={i.rotIl}" else ""
         let pre := if i.rotary then
-            "RotaryEmbedding@com.microsoft{}(query,position_ids,cos,sin)->1 RotaryEmbedding@com.microsoft{}(key,position_ids,cos,sin)->1 "
+            s!"RotaryEmbedding@com.microsoft\{{ra}}(query,position_ids,cos,sin)->1 RotaryEmbedding@com.microsoft\{{ra}}(key,position_ids,cos,sin)->1 "
           else ""
         let qk := if i.rotary then "@RotaryEmbedding,@RotaryEmbedding" else "query,key"
         if i.past then
@@ -767,6 +783,9 @@ structure MhabIn where
   preConst : Bool
   ascale : Option Float    -- the node's own `scale` attribute
   mask : Bool
+  /-- `true` (default, what the driver uses) = /repo after commit 639f07c: every matched bias is 1-D of its
+      projection's hidden size.  `false` = the rule before that commit (finding C19-F12), kept for `…_prefix_refuted`. -/
+  fix12 : Bool := true
 
 def mhab (i : MhabIn) : String :=
   -- fuse_mha_scale: the Mul's second operand must be a one-element numeric constant
@@ -784,14 +803,21 @@ def mhab (i : MhabIn) : String :=
   -- what the MHA node's first input is after that
   let mulLeft := i.pre.isSome && !c1
   -- fuse_mha_bias: `OrValue([Add(matmul, bias), matmul])` per projection, Add not commuted
-  let pick (on : Bool) (mat bias : Option Shape) (matN biasN : String) : Bool × Option Shape × String :=
-    if on then (if i.biasFirst then (true, bias, biasN) else (true, mat, matN)) else (false, mat, matN)
-  let (hq, qsh, qn) := if mulLeft then (false, i.qm, "@Mul") else pick i.qb i.qm i.qbias "qm" "qbias"
+  -- result: (bias matched?, shape bound as projection, its name, shape bound as bias)
+  let pick (on : Bool) (mat bias : Option Shape) (matN biasN : String)
+      : Bool × Option Shape × String × Option Shape :=
+    if on then (if i.biasFirst then (true, bias, biasN, mat) else (true, mat, matN, bias))
+    else (false, mat, matN, none)
+  let (hq, qsh, qn, qbs) := if mulLeft then (false, i.qm, "@Mul", none) else pick i.qb i.qm i.qbias "qm" "qbias"
   let dshape : Option Shape := match i.qm with
     | some l => l.getLast?.map (fun d => [d])
     | none => none
-  let (hk, ksh, kn) := pick i.kb i.km dshape "km" "kbias"
-  let (hv, vsh, vn) := pick i.vb i.vm dshape "vm" "vbias"
+  let (hk, ksh, kn, kbs) := pick i.kb i.km dshape "km" "kbias"
+  let (hv, vsh, vn, vbs) := pick i.vb i.vm dshape "vm" "vbias"
+  let biasFits (has : Bool) (bs : Option Shape) (hidden : Option Nat) : Bool :=
+    !has || (match bs, hidden with
+             | some [.int n], some d => n == d
+             | _, _ => false)
   let okBias :=
     (hq || hk || hv) && (i.dt == 1 || i.dt == 10) &&
     (match checkShape [] qsh ["B", "S", "D"] with
@@ -800,7 +826,9 @@ def mhab (i : MhabIn) : String :=
        | none => false
        | some b2 => match checkShape b2 vsh ["B", "Skv", "Dv"] with
          | none => false
-         | some b3 => (lookupInt b3 "D").isSome && (lookupInt b3 "Dk").isSome && (lookupInt b3 "Dv").isSome)
+         | some b3 => (lookupInt b3 "D").isSome && (lookupInt b3 "Dk").isSome && (lookupInt b3 "Dv").isSome
+             && (!i.fix12 || (biasFits hq qbs (lookupInt b3 "D") && biasFits hk kbs (lookupInt b3 "Dk")
+                              && biasFits hv vbs (lookupInt b3 "Dv"))))
   let sc := match scale1 with | some s => s!";scale={showF s}" | none => ""
   let head := s!"count={if c1 then 1 else 0}/{if okBias then 1 else 0}"
   if okBias then
